@@ -268,7 +268,7 @@ theorem pStr_strBytes (c : Cfg) (k : Str) (s : Bytes) (hk : k.wf = true) :
   · next h =>
     simp only [Bool.and_eq_true, Bool.not_eq_true'] at h
     have hw : k.cs.all (fun c => !mustEscape c) = true := by
-      simp only [Str.wf, h.2, Bool.false_or] at hk; exact hk
+      simp only [Str.wf, h.1.2, Bool.false_or] at hk; exact hk
     exact ⟨false, rfl, by simpa using pStr_rawBody k.cs s hw⟩
   · obtain ⟨e, he⟩ := pStr_escBody c.ascii k.cs s
     exact ⟨e, rfl, by simpa using he⟩
@@ -324,7 +324,7 @@ theorem render_cons (c : Cfg) (hf : FmtOK c) (lvl : Nat) (v : V) (hv : v.wf = tr
     have := numChar_facts b h2
     exact ⟨b, t, by simp [render, h1], numChar_not_ws b h2, this.2.2.2.2.2.2.1, this.2.2.2.2.2.2.2⟩
   | str s =>
-    by_cases hh : (!c.ascii && !s.esc) = true
+    by_cases hh : (!c.ascii && !s.esc && !hasDel s.cs) = true
     · exact ⟨0x22, rawBody s.cs ++ [0x22], by simp only [render, strBytes, hh, if_true], by decide, by decide, by decide⟩
     · exact ⟨0x22, escBody c.ascii s.cs ++ [0x22], by simp only [render, strBytes, hh]; rfl, by decide, by decide, by decide⟩
   | arr xs =>
